@@ -302,7 +302,8 @@ impl<'t, 'a, 'g> Gen<'t, 'a, 'g> {
         self.loops.pop();
         self.scopes.pop();
         let kw = if self.tape.chance(1, 2) { "const" } else { "let" };
-        format!("{}for ({} {}{} of {}) {{\n{}\n{}}}", ind(i), kw, v, self.mark('v', &ety), iter, body.join("\n"), ind(i))
+        // (TypeScript forbids a type annotation on the declaration of a for-of/for-in statement)
+        format!("{}for ({} {} of {}) {{\n{}\n{}}}", ind(i), kw, v, iter, body.join("\n"), ind(i))
     }
 
     pub fn stmt_for_in(&mut self, i: usize) -> String {
@@ -587,7 +588,7 @@ impl<'t, 'a, 'g> Gen<'t, 'a, 'g> {
             let n = self.fresh("rest");
             self.declare(&n, Ty::Arr(Box::new(Ty::Any)), true);
             self.tag("param:rest");
-            out.push(format!("...{}{}", n, self.mark('p', &Ty::Arr(Box::new(Ty::Any)))));
+            out.push(format!("...{}{}", n, self.mark('R', &Ty::Arr(Box::new(Ty::Any)))));
         }
         out.join(", ")
     }
@@ -638,8 +639,17 @@ impl<'t, 'a, 'g> Gen<'t, 'a, 'g> {
         let body = self.fn_body(&ret, i + 1);
         self.leave_fn(saved);
         self.tag("decl:function");
+        // TypeScript-only: overload signatures directly before the implementation
+        let overloads = if self.cfg.ts_slots {
+            let anys: Vec<String> = (0..params.len()).map(|k| format!("x{}: any", k)).collect();
+            let unk: Vec<String> = (0..params.len()).map(|k| format!("x{}?: any", k)).collect();
+            self.ts_only(&format!("{ind}function {n}({a}): any;\n{ind}function {n}({u}): any;\n", ind = ind(i), n = name, a = anys.join(", "), u = unk.join(", ")))
+        } else {
+            String::new()
+        };
         let text = format!(
-            "{}function {}{}({}){} {{\n{}\n{}}}",
+            "{}{}function {}{}({}){} {{\n{}\n{}}}",
+            overloads,
             ind(i),
             name,
             self.mark('t', &ret),
@@ -904,7 +914,7 @@ impl<'t, 'a, 'g> Gen<'t, 'a, 'g> {
             body.extend(self.fn_body(&ret, i + 2));
             self.leave_fn(saved);
             self.tag("class:method");
-            lines.push(format!("{}{}{}({}){} {{\n{}\n{}}}", ind(i + 1), self.mark('c', &ret), mname, plist, self.mark('r', &ret), body.join("\n"), ind(i + 1)));
+            lines.push(format!("{}{}{}({}){} {{\n{}\n{}}}", ind(i + 1), self.mark('d', &ret), mname, plist, self.mark('r', &ret), body.join("\n"), ind(i + 1)));
             info.methods.push((mname, params, ret));
         }
         if let (Some(b), true) = (&base, self.tape.chance(1, 2)) {
@@ -949,6 +959,10 @@ impl<'t, 'a, 'g> Gen<'t, 'a, 'g> {
                 info.getters.push(g.clone());
             }
         }
+        if self.cfg.ts_slots {
+            // TypeScript-only members: index signature, declared field, optional field, method overload-free signature
+            lines.insert(0, self.ts_only(&format!("{}[key: string]: any;\n{}declare hidden: number;", ind(i + 1), ind(i + 1))));
+        }
         let ext = base.as_ref().map(|b| format!(" extends {}", b.name)).unwrap_or_default();
         let idx = self.classes.len();
         self.classes.push(info);
@@ -961,7 +975,7 @@ impl<'t, 'a, 'g> Gen<'t, 'a, 'g> {
             "{}class {}{}{}{} {{\n{}\n{}}}\n{}const {} = {};",
             ind(i),
             name,
-            self.mark('t', &Ty::Any),
+            self.mark('T', &Ty::Any),
             ext,
             self.mark('i', &Ty::Any),
             lines.join("\n"),
